@@ -1,26 +1,12 @@
-(** Model of SCAN / HSCAN / SSCAN / ZSCAN: engine.rs scan, hscan, sscan, zscan
-    (2192-2474) and commands/scan.rs.  The cursor is an index into the sorted
-    list of live (type-filtered) keys, recomputed on every call.  MATCH uses
-    engine.rs's matcher (Model/Glob.v). *)
+(** Model of SCAN / HSCAN / SSCAN / ZSCAN: engine.rs scan, hscan, sscan, zscan and
+    commands/scan.rs, after the repair e3de5de: elements are walked in the order of their FNV-1a
+    hash (element_hash) and the cursor is the hash of the first element of the next page - a
+    call returns the elements with hash >= cursor, one interval of hash values completely.
+    MATCH uses engine.rs's matcher (Model/Glob.v).
+    The page logic is parametrised by the hash function [hf] so that hash ties can be forged in
+    proofs; the engine functions instantiate it with the real [fnv1a]. *)
 From Ferrous Require Import Base.Bytes Model.Resp Model.Types Model.Glob Model.Strings.
 Open Scope Z_scope.
-
-(** ---- the while loop shared by the four functions ----
-    while examined < max*10 && matched < max { if pos >= len {break}; ...; pos += 1; examined += 1 }
-    [rest] = items from the current position on.  Returns (final position, included items). *)
-Fixpoint scan_walk {A} (inc : A -> bool) (rest : list A) (examined matched limE limM pos : Z)
-  : Z * list A :=
-  match rest with
-  | [] => (pos, [])
-  | x :: r =>
-      if (examined <? limE) && (matched <? limM) then
-        if inc x then
-          match scan_walk inc r (examined + 1) (matched + 1) limE limM (pos + 1) with
-          | (p, l) => (p, x :: l)
-          end
-        else scan_walk inc r (examined + 1) matched limE limM (pos + 1)
-      else (pos, [])
-  end.
 
 (** scan_count = if count == 0 {10} else {count}; max_scan_count = min(scan_count, 1000) *)
 Definition scan_limit (count : Z) : Z := Z.min (if count =? 0 then 10 else count) 1000.
@@ -28,30 +14,80 @@ Definition scan_limit (count : Z) : Z := Z.min (if count =? 0 then 10 else count
 Definition scan_inc {A} (keyof : A -> bytes) (pat : option bytes) (x : A) : bool :=
   match pat with Some p => glob_match p (keyof x) | None => true end.
 
-(** [items] sorted; [cursor] is a u64.  `start_pos >= len && !is_empty` returns (0, []);
-    for an empty list the loop breaks at once and next_cursor is 0: the same result,
-    so one test covers both (and no huge cursor is ever converted to a position). *)
-Definition scan_core {A} (keyof : A -> bytes) (items : list A) (cursor count : Z) (pat : option bytes)
-  : Z * list A :=
+(** sort_by_cached_key(element_hash): a stable sort of the HashMap iteration order, so elements with
+    equal hashes come in an unspecified order; the model orders them by key *)
+Definition hleb {A} (hf : A -> Z) (keyof : A -> bytes) (x y : A) : bool :=
+  (hf x <? hf y) || ((hf x =? hf y) && bleb (keyof x) (keyof y)).
+Fixpoint hinsert {A} (hf : A -> Z) (keyof : A -> bytes) (x : A) (l : list A) : list A :=
+  match l with
+  | [] => [x]
+  | y :: r => if hleb hf keyof x y then x :: l else y :: hinsert hf keyof x r
+  end.
+Definition hsort {A} (hf : A -> Z) (keyof : A -> bytes) (l : list A) : list A :=
+  fold_right (hinsert hf keyof) [] l.
+
+(** hashes.partition_point(|h| h < cursor) on the sorted list: the elements from there on *)
+Fixpoint from_hash {A} (hf : A -> Z) (cursor : Z) (l : list A) : list A :=
+  match l with
+  | [] => []
+  | x :: r => if hf x <? cursor then from_hash hf cursor r else l
+  end.
+
+(** the page loop:
+      while scan_page_continues(&hashes, pos, examined < max*10 && matched < max) { ... pos += 1; examined += 1 }
+      scan_page_continues = pos < len && (has_room || (pos > 0 && hashes[pos] == hashes[pos-1]))
+    [rest] = elements from the current position on, [prev] = hash of the element just taken (the
+    element before the start position has a smaller hash than the first one taken, and the first
+    step has room, so None is right at the start).  Returns (included elements, elements left). *)
+Fixpoint page_walk {A} (hf : A -> Z) (inc : A -> bool) (rest : list A) (prev : option Z)
+         (examined matched limE limM : Z) : list A * list A :=
+  match rest with
+  | [] => ([], [])
+  | x :: r =>
+      let has_room := (examined <? limE) && (matched <? limM) in
+      if has_room || (match prev with Some h => hf x =? h | None => false end) then
+        match page_walk hf inc r (Some (hf x)) (examined + 1) (if inc x then matched + 1 else matched) limE limM with
+        | (res, remaining) => (if inc x then x :: res else res, remaining)
+        end
+      else ([], rest)
+  end.
+
+(** one call: (next cursor, included elements).  `start_pos >= len && !is_empty` returns (0, []);
+    for an empty collection the loop does not run and next_cursor is 0: one case. *)
+Definition scan_core {A} (hf : A -> Z) (keyof : A -> bytes) (items : list A) (cursor count : Z)
+           (pat : option bytes) : Z * list A :=
   let maxc := scan_limit count in
-  let n := len items in
-  if n <=? cursor then (0, [])
-  else
-    match scan_walk (scan_inc keyof pat) (zskipn cursor items) 0 0 (maxc * 10) maxc cursor with
-    | (pos, res) => (if n <=? pos then 0 else pos, res)
-    end.
+  match from_hash hf cursor (hsort hf keyof items) with
+  | [] => (0, [])
+  | rest =>
+      match page_walk hf (scan_inc keyof pat) rest None 0 0 (maxc * 10) maxc with
+      | (res, remaining) => (match remaining with [] => 0 | y :: _ => hf y end, res)
+      end
+  end.
+
+(** sort_by_cached_key: every hash is computed once.  (Same function as [scan_core hf keyof]:
+    Proofs/ScanFacts.v scan_core_cached_eq; this is the one that is executed.) *)
+Definition scan_core_cached {A} (hf : A -> Z) (keyof : A -> bytes) (items : list A) (cursor count : Z)
+           (pat : option bytes) : Z * list A :=
+  match scan_core (fun p => fst p) (fun p => keyof (snd p)) (map (fun x => (hf x, x)) items) cursor count pat with
+  | (c, res) => (c, map snd res)
+  end.
+
+(** element_hash *)
+Definition key_hash (k : bytes) : Z := fnv1a k.
+Definition pair_hash {B} (kv : bytes * B) : Z := fnv1a (fst kv).
 
 (** ---- engine.rs scan ---- *)
 Definition scan_visible (now : Z) (tf : option bytes) (kv : bytes * entry) : bool :=
   negb (expired now (snd kv)) &&
   match tf with Some t => beq (type_name (e_val (snd kv))) t | None => true end.
 Definition live_keys (now : Z) (d : db) (tf : option bytes) : list bytes :=
-  bsort (map fst (filter (scan_visible now tf) (d_data d))).
+  map fst (filter (scan_visible now tf) (d_data d)).
 Definition eng_scan (now : Z) (d : db) (cursor : Z) (pat tf : option bytes) (count : Z)
   : Z * list bytes :=
-  scan_core (fun k => k) (live_keys now d tf) cursor count pat.
+  scan_core_cached key_hash (fun k => k) (live_keys now d tf) cursor count pat.
 
-(** sort pairs by their first component (fields.sort() / items.sort_by(member)) *)
+(** sort pairs by their first component (items.sort_by(member); canonical form of fast paths) *)
 Fixpoint pinsert {B} (x : bytes * B) (l : list (bytes * B)) : list (bytes * B) :=
   match l with
   | [] => [x]
@@ -62,15 +98,17 @@ Definition psort {B} (l : list (bytes * B)) : list (bytes * B) := fold_right pin
 Definition flat_pairs (novalues : bool) (l : list (bytes * bytes)) : list bytes :=
   flat_map (fun fv => if novalues then [fst fv] else [fst fv; snd fv]) l.
 
-(** None = Err(WrongType).  The fast path (small collection, cursor 0, no pattern)
-    returns everything in HashMap order: canonical form = sorted. *)
+Definition no_pat (pat : option bytes) : bool := match pat with Some _ => false | None => true end.
+
+(** None = Err(WrongType).  The fast path (small collection, cursor 0, no pattern) returns
+    everything in HashMap order (canonical form: sorted); the slow path goes by hash. *)
 Definition eng_hscan (now : Z) (d : db) (key : bytes) (cursor : Z) (pat : option bytes) (count : Z)
            (novalues : bool) : option (Z * list bytes) * db :=
   match eng_get now d key with
   | (Found (VHash h), d') =>
-      if (len h <=? scan_limit count) && (cursor =? 0) && negb (match pat with Some _ => true | None => false end)
+      if (len h <=? scan_limit count) && (cursor =? 0) && no_pat pat
       then (Some (0, flat_pairs novalues (psort h)), d')
-      else match scan_core fst (psort h) cursor count pat with
+      else match scan_core_cached pair_hash fst h cursor count pat with
            | (c, items) => (Some (c, flat_pairs novalues items), d')
            end
   | (Found _, d') => (None, d')
@@ -81,22 +119,21 @@ Definition eng_sscan (now : Z) (d : db) (key : bytes) (cursor : Z) (pat : option
   : option (Z * list bytes) * db :=
   match eng_get now d key with
   | (Found (VSet s), d') =>
-      if (len s <=? scan_limit count) && (cursor =? 0) && negb (match pat with Some _ => true | None => false end)
+      if (len s <=? scan_limit count) && (cursor =? 0) && no_pat pat
       then (Some (0, bsort s), d')
-      else (Some (scan_core (fun m => m) (bsort s) cursor count pat), d')
+      else (Some (scan_core_cached key_hash (fun m => m) s cursor count pat), d')
   | (Found _, d') => (None, d')
   | (_, d') => (Some (0, []), d')
   end.
 
-(** items sorted by member first; scores are f64 bit patterns *)
+(** the fast path returns the items sorted by member; scores are f64 bit patterns *)
 Definition eng_zscan (now : Z) (d : db) (key : bytes) (cursor : Z) (pat : option bytes) (count : Z)
   : option (Z * list (bytes * Z)) * db :=
   match eng_get now d key with
   | (Found (VZSet z), d') =>
-      let items := psort z in
-      if (len items <=? scan_limit count) && (cursor =? 0) && negb (match pat with Some _ => true | None => false end)
-      then (Some (0, items), d')
-      else (Some (scan_core fst items cursor count pat), d')
+      if (len z <=? scan_limit count) && (cursor =? 0) && no_pat pat
+      then (Some (0, psort z), d')
+      else (Some (scan_core_cached pair_hash fst z cursor count pat), d')
   | (Found _, d') => (None, d')
   | (_, d') => (Some (0, []), d')
   end.
